@@ -411,7 +411,7 @@ func cmdCheck(args []string) int {
 		}
 	}
 	extra := map[string]any{}
-	if cp, ok := p.(CrossProcess); ok && cp.CrossProcessRuns() > 0 && !*noEvidence {
+	if cp, ok := p.(CrossProcess); ok && cp.CrossProcessRuns() > 0 {
 		rp, info, mach := crossProcess(self, p, *tier, *seed, cp.CrossProcessRuns())
 		extra["cross_process_comparison"] = info
 		if rp != nil {
